@@ -143,7 +143,7 @@ theorem opLock_cfg (db : DB) (c : Cmd) : (opLock db c).1.cfg = db.cfg := by
   | ackWaiting h => rfl
   | relockRefused h => rfl
   | timeout => rfl
-  | relock h => unfold applyLock; simp only []; split <;> split <;> simp
+  | relock h => unfold applyLock; simp only []; split <;> split <;> simp [pushJ_tab, pushJ_cfg]
   | grant => unfold applyLock; simp only []; split <;> simp
   | ackGrant => unfold applyLock; simp only []; split <;> simp
   | queue => unfold applyLock; simp
@@ -230,18 +230,20 @@ theorem step_cfg (db : DB) (ev : Ev) : (step db ev).1.cfg = db.cfg := by
   | flush o => exact opFailAll_cfg db o
 
 /-- **counted quorum, for every run.** -/
-theorem trace_succ : ∀ (evs : List Ev) (pre : List Ev) (db : DB), InvA db → InvK db → TG pre db →
+theorem trace_succ : ∀ (evs : List Ev) (pre : List Ev) (db : DB), Inv3 db → TG pre db →
     ∀ t ∈ trace db pre evs, ∀ rp ∈ t.2.2, rp.result = R_SUCCED → rp.ack = true → SuccOk db.cfg t rp := by
   intro evs
   induction evs with
-  | nil => intro pre db _ _ _ t ht; simp [trace] at ht
+  | nil => intro pre db _ _ t ht; simp [trace] at ht
   | cons e es ih =>
-    intro pre db ha hk ht t hmem rp hr hs hack
+    intro pre db h3 ht t hmem rp hr hs hack
+    have ha := h3.a
+    have hk := h3.k
     unfold trace at hmem
     rcases List.mem_cons.mp hmem with h | h
     · subst h
       exact step_succ ha hk ht e rp hr hs hack
-    · have := ih (pre ++ [e]) (step db e).1 (ha.step e) (InvK.step ha hk e) (TG_step ht e) t h rp hr hs hack
+    · have := ih (pre ++ [e]) (step db e).1 (h3.step e) (TG_step ht e) t h rp hr hs hack
       rw [step_cfg] at this; exact this
 
 end Slock.Ack
